@@ -79,10 +79,16 @@ func RunDSSRecord(cfg DSSConfig, res *core.Result) error {
 		for k := 0; k < steps; k++ {
 			switch c := rng.Intn(10); {
 			case c == 0:
-				_, err := d.PartialSig()
+				var err error
+				if msg, _, pn := core.Try(func() { _, err = d.PartialSig() }); pn {
+					err = fmt.Errorf("panic: %s", msg)
+				}
 				emit("PartialSig", map[string]any{}, retOf(err))
 			case c == 1:
-				_, err := d.Signature()
+				var err error
+				if msg, _, pn := core.Try(func() { _, err = d.Signature() }); pn {
+					err = fmt.Errorf("panic: %s", msg)
+				}
 				emit("Signature", map[string]any{}, retOf(err))
 			default:
 				kind := kinds[rng.Intn(len(kinds))]
@@ -105,7 +111,9 @@ func RunDSSRecord(cfg DSSConfig, res *core.Result) error {
 			}
 			res.Eval(fmt.Sprintf("trace %d step %d", run, k))
 		}
-		_, err = d.Signature()
+		if msg, _, pn := core.Try(func() { _, err = d.Signature() }); pn {
+			err = fmt.Errorf("panic: %s", msg)
+		}
 		emit("Signature", map[string]any{}, retOf(err))
 	}
 	res.AddTraces(cfg.Runs)
